@@ -20,6 +20,8 @@ pub struct Workload {
     /// Search every file through a (cat-like) preprocessor: results are the
     /// same, but errors travel through another layer.
     pub pre: bool,
+    /// Flags that must not affect the contract.
+    pub extra_flags: Vec<String>,
 }
 
 const MODES: [&str; 12] = ["standard", "count", "files-with-matches", "quiet", "files", "json", "context", "files-without-match", "count-matches", "include-zero", "only-matching", "vimgrep"];
@@ -36,7 +38,16 @@ pub fn gen_workload(sub: u64) -> Workload {
     let no_messages = rng.chance(1, 4);
     let stats = mode == "quiet" && rng.chance(1, 2);
     let pre = mode != "files" && rng.chance(1, 6);
-    Workload { corpus, mode, threads, sched, no_messages, stats, pre }
+    let mut extra_flags = vec![];
+    for f in ["--line-buffered", "--block-buffered", "--no-ignore", "--hidden", "-i", "--no-unicode", "--no-ignore-messages", "--one-file-system", "-L", "--no-require-git", "-uu"] {
+        if rng.chance(1, 10) && !(f == "--block-buffered" && extra_flags.iter().any(|x: &String| x == "--line-buffered")) {
+            extra_flags.push(f.to_string());
+        }
+    }
+    if !corpus.links.is_empty() {
+        extra_flags.retain(|f| f != "-L"); // the dangling link has its own leg
+    }
+    Workload { corpus, mode, threads, sched, no_messages, stats, pre, extra_flags }
 }
 
 fn base_args(w: &Workload) -> Vec<String> {
@@ -70,6 +81,7 @@ fn base_args(w: &Workload) -> Vec<String> {
     if w.pre {
         a.extend(["--pre".into(), STUB.into()]);
     }
+    a.extend(w.extra_flags.iter().cloned());
     if w.mode != "files" {
         a.push("foo".into());
     }
@@ -144,6 +156,9 @@ pub fn run_workload(sub: u64, only_leg: Option<&str>, acc: &mut Acc, ctx: &Ctx, 
     }
     if w.pre {
         acc.mix.inc("--pre");
+    }
+    for f in &w.extra_flags {
+        acc.mix.inc(&format!("flag:{f}"));
     }
     let line_mode = matches!(w.mode.as_str(), "standard" | "count" | "files-with-matches" | "files" | "files-without-match" | "count-matches" | "include-zero" | "only-matching" | "vimgrep");
 
